@@ -28,6 +28,14 @@ KNOWN = os.path.join(ROOT, "KNOWN_FINDINGS.txt")
 BUILD = os.environ.get("VK_BUILD") or os.path.join(ROOT, ".build", "run-%d" % os.getpid())   # per process: checks may run concurrently
 XSIM_PROPS = {"C01", "C07", "C08", "C09", "C10", "C11", "C18"}
 XREG_PROPS = {"C06", "C11", "C16"}
+# parts of a claim that only a stand-in decides (so that its unavailability is never silent)
+SOLE_DECIDER = {
+    "xbcast": {"C14": "the first sentence of C14 (query broadcast)", "C17": "the last sentence of C17 (sending order through one output)"},
+    "xchan": {"C12": "the send / recv / wake-up half of C12", "C06": "the in-flight counter moves of send / recv"},
+    "xreg": {"C16": "init exactly once before the first message"},
+    "xexec": {"C06": "the single-threaded executor's message count", "C11": "the single-threaded executor's panic report"},
+    "xsched": {"C09": "the in-model re-check of a cancelled key"},
+}
 EXTRA_STANDINS = {
     "xreg": {"props": XREG_PROPS, "short": "real registration + report text, every model hierarchy up to the bound",
              "unit_of_count": "hierarchies", "scenario_word": "model hierarchy",
@@ -420,6 +428,10 @@ def evaluate(prop, tier, tmpls, unit_cache, kani_cache):
                                                                  " UNAVAILABLE: " + x["undecided"] if x["undecided"] else ""))
         xe = unit_cache[ck]
         extra[xname] = xe
+        if not xe["ok"] and prop in SOLE_DECIDER.get(xname, {}):
+            # this stand-in is the only thing that decides a part of the claim for this property: without it that part
+            # is undecided, whatever the proof route says about the rest
+            undecided.append("stand-in %s, the only decider of %s, is unavailable: %s" % (xname, SOLE_DECIDER[xname][prop], (xe["undecided"] or "")[:200]))
         if xe["ok"]:
             for xf in xe["failures"]:
                 if prop in xf["props"].split(","):
